@@ -63,9 +63,9 @@ const (
 	PvAbortHandler
 	PvWrapped
 	PvInt
-	PvErrSlice // an error whose dynamic type is a slice (unhashable, like validator.ValidationErrors)
-	PvMap      // a map value (unhashable)
-	PvFunc     // a func value (unhashable, not comparable)
+	PvErrSlice  // an error whose dynamic type is a slice (unhashable, like validator.ValidationErrors)
+	PvMap       // a map value (unhashable)
+	PvFunc      // a func value (unhashable, not comparable)
 	PvNilPtrErr // a typed nil pointer implementing error whose Error() dereferences it
 	pvMax
 )
@@ -143,9 +143,10 @@ type SimH struct {
 }
 
 var (
-	extraType  = reflect.TypeOf(Extra(""))
-	svcType    = reflect.TypeOf(&AppSvc{})
-	renderType = reflect.TypeOf((*flamego.Render)(nil)).Elem()
+	extraType   = reflect.TypeOf(Extra(""))
+	svcType     = reflect.TypeOf(&AppSvc{})
+	renderType  = reflect.TypeOf((*flamego.Render)(nil)).Elem()
+	labelerType = reflect.TypeOf((*Labeler)(nil)).Elem()
 )
 
 func (h *SimH) body(q *Req, n int) []byte {
@@ -219,6 +220,47 @@ func (h *SimH) do(q *Req, c flamego.Context, rw http.ResponseWriter, r *http.Req
 		if f, ok := rw.(http.Flusher); ok {
 			q.ev(EvAttempt, h.HID, int(a.Op), "")
 			f.Flush()
+		}
+	case OpMapIface:
+		if c != nil {
+			c.MapTo(reqLabel("label-"+q.Name), (*Labeler)(nil))
+		}
+	case OpSeeIface:
+		if c != nil {
+			if v := c.Value(labelerType); v.IsValid() {
+				q.Note("labeler=" + v.Interface().(Labeler).Label())
+			} else {
+				q.Note("labeler=none")
+			}
+		}
+	case OpInvoke:
+		if c != nil {
+			_, err := c.Invoke(func(t Token, cc flamego.Context) {
+				same := "same-ctx"
+				if cc != c {
+					same = "OTHER-CTX"
+				}
+				q.Note("invoke:tok=" + string(t) + "," + same)
+			})
+			if err != nil {
+				q.Note("invoke:err")
+			}
+		}
+	case OpApply:
+		if c != nil {
+			var dst struct {
+				T Token         `inject:""`
+				R *http.Request `inject:""`
+			}
+			if err := c.Apply(&dst); err != nil {
+				q.Note("apply:err")
+			} else {
+				rq := "none"
+				if dst.R != nil {
+					rq = dst.R.Header.Get("X-Req")
+				}
+				q.Note("apply:tok=" + string(dst.T) + ",req=" + rq)
+			}
 		}
 	case OpReplaceCtx:
 		if c != nil {
